@@ -120,12 +120,13 @@ def finish(ctx, repo=None):
             matched.append((f, known_idx[ident]))
         else:
             violations.append(f)
+    no_write = bool(os.environ.get('SA_NO_EVIDENCE'))
     outdir = os.path.join(VERIF, 'out', ctx.prop)
     for f, k in matched:
         print('KNOWN-FINDING: property=%s %s %s:%s %s -- %s%s' % (
             ctx.prop, f.rule, f.file, f.line, f.construct, k.get('what', f.why),
             (' [input: %s]' % k['input']) if k.get('input') else ''))
-    if violations:
+    if violations and not no_write:
         os.makedirs(outdir, exist_ok=True)
         for old in os.listdir(outdir):
             if old.endswith('.json'):
@@ -135,8 +136,9 @@ def finish(ctx, repo=None):
                     pass
     for i, f in enumerate(violations):
         path = os.path.join(outdir, '%d.json' % i)
-        with open(path, 'w', encoding='utf-8') as fh:
-            json.dump(f.as_dict(ctx.prop), fh, indent=1)
+        if not no_write:
+            with open(path, 'w', encoding='utf-8') as fh:
+                json.dump(f.as_dict(ctx.prop), fh, indent=1)
         print('%s:%s  %s  %s  %s' % (f.file, f.line, f.rule, f.construct, f.why))
         if f.chain:
             print('    via: ' + ' -> '.join(f.chain))
@@ -183,10 +185,11 @@ def finish(ctx, repo=None):
         'wall_s': round(time.time() - ctx.t0, 3),
         'violations': failed_unlisted,
     }
-    os.makedirs(os.path.join(VERIF, 'evidence'), exist_ok=True)
-    with open(os.path.join(VERIF, 'evidence', ctx.prop + '.json'), 'w', encoding='utf-8') as fh:
-        json.dump(ev, fh, indent=1, ensure_ascii=False)
-        fh.write('\n')
+    if not no_write:
+        os.makedirs(os.path.join(VERIF, 'evidence'), exist_ok=True)
+        with open(os.path.join(VERIF, 'evidence', ctx.prop + '.json'), 'w', encoding='utf-8') as fh:
+            json.dump(ev, fh, indent=1, ensure_ascii=False)
+            fh.write('\n')
     tot = '%d rule instances over %d rules, %d known findings, %d violations, %.2fs' % (
         evaluations, len(ctx.rules), len(matched), failed_unlisted, time.time() - ctx.t0)
     print('%s %s [%s]: %s' % (ctx.prop, 'VIOLATED' if violations else 'holds', ctx.tier, tot))
